@@ -42,11 +42,14 @@ VARIABLES inst,    \* the instance being run (constant along a behaviour)
           out,     \* sequence of printed lines (each a sequence of integers)
           selvec,  \* key -> case vector (mechanism modes)
           fault,   \* "" or the run-time panic that stopped the program
+          cells,   \* heap objects behind pointers, maps, slices (one integer each)
           round    \* simulation only: index into PickSeq of the instance being run
-vars == <<inst, procs, chans, wgs, mus, glob, out, selvec, fault, round>>
+vars == <<inst, procs, chans, wgs, mus, glob, out, selvec, fault, cells, round>>
 
 ChanBase == 1000
-IsChan(v) == v > ChanBase
+CellBase == 2000                     \* values above it are references to heap cells
+IsChan(v) == v > ChanBase /\ v < CellBase
+IsRef(v) == v > ChanBase             \* a channel or a reference: what Isolation tracks
 Cx(v) == v - ChanBase                \* channel value -> index into chans
 
 \* ---------------------------------------------------------------- expressions
@@ -58,6 +61,8 @@ Eval(e, l) ==
       [] e[1] = "mul" -> Eval(e[2], l) * Eval(e[3], l)
       [] e[1] = "le"  -> IF Eval(e[2], l) <= Eval(e[3], l) THEN 1 ELSE 0
       [] e[1] = "eq"  -> IF Eval(e[2], l) = Eval(e[3], l) THEN 1 ELSE 0
+      \* call of a function VALUE: the value 1 denotes x*2+1, the value 2 denotes x+50
+      [] e[1] = "app" -> IF Eval(e[2], l) = 1 THEN Eval(e[3], l) * 2 + 1 ELSE Eval(e[3], l) + 50
 
 EvalSeq(es, l) == [i \in 1..Len(es) |-> Eval(es[i], l)]
 
@@ -76,7 +81,7 @@ NewProc(fn, args, ip) ==
                              ELSE 0],
      \* Isolation bookkeeping: the channels the process was GIVEN (arguments, or
      \* made by itself) and the channels it actually operated on
-     given |-> {args[i] : i \in {j \in 1..Len(args) : IsChan(args[j])}},
+     given |-> {args[i] : i \in {j \in 1..Len(args) : IsRef(args[j])}},
      touched |-> {},
      held |-> {}]          \* mutexes locked and not yet unlocked by this process
 
@@ -97,7 +102,7 @@ Init ==
     /\ inst \in Starts
     /\ procs = <<NewProc(inst.fn, inst.args, 0)>>
     /\ chans = <<>> /\ wgs = Wgs0 /\ mus = Mus0 /\ glob = Glob0
-    /\ out = <<>> /\ selvec = Selvec0 /\ fault = "" /\ round = 0
+    /\ out = <<>> /\ selvec = Selvec0 /\ fault = "" /\ cells = <<>> /\ round = 0
 
 \* ------------------------------------------------------- steps local to a process
 \* set/jmp/jz/ret touch nothing but the process itself; make and go create a fresh
@@ -106,12 +111,13 @@ Init ==
 \* property mentions), so they are executed eagerly, lowest process first: a sound
 \* partial-order reduction that keeps TLC exhaustive over all schedules of the
 \* remaining (communicating, printing, locking) steps.
-LocalOps == {"set", "jmp", "jz", "ret", "make", "go", "goi"}
+LocalOps == {"set", "jmp", "jz", "ret", "make", "new", "go", "goi"}
 LocalSet == {p \in PIDs : Running(p) /\ Op(p) \in LocalOps}
 LocalPending == LocalSet # {}
 FirstLocal == CHOOSE p \in LocalSet : \A q \in LocalSet : p <= q
 
 NewChan == ChanBase + Len(chans) + 1
+NewCell == CellBase + Len(cells) + 1
 
 Local ==
     /\ ~Stopped /\ LocalPending
@@ -122,6 +128,8 @@ Local ==
                        [] i[1] = "ret" -> [procs EXCEPT ![p].st = "done"]
                        \* make(chan int, cap)
                        [] i[1] = "make" -> [SetL(Step(p), p, i[2], NewChan) EXCEPT ![p].given = @ \cup {NewChan}]
+                       \* x := a reference to a fresh heap object holding e (new(int), map and slice literals)
+                       [] i[1] = "new" -> [SetL(Step(p), p, i[2], NewCell) EXCEPT ![p].given = @ \cup {NewCell}]
                        \* go f(args): a new process with its own locals; "goi" also starts a new interpreter
                        [] i[1] \in {"go", "goi"} ->
                             Append(Step(p), NewProc(i[2], EvalSeq(i[3], Loc(p)),
@@ -129,6 +137,7 @@ Local ==
          /\ chans' = IF i[1] = "make"
                       THEN Append(chans, [cap |-> Eval(i[3], Loc(p)), buf |-> <<>>, closed |-> FALSE])
                       ELSE chans
+         /\ cells' = IF i[1] = "new" THEN Append(cells, Eval(i[3], Loc(p))) ELSE cells
          /\ i[1] = "make" => Len(chans) < MaxChans
          /\ i[1] \in {"go", "goi"} => Len(procs) < MaxProcs
     /\ UNCHANGED <<round, inst, wgs, mus, glob, out, selvec, fault>>
@@ -139,19 +148,33 @@ Println(p) ==
     /\ Ready(p) /\ Op(p) = "print"
     /\ out' = Append(out, EvalSeq(Ins(p)[2], Loc(p)))
     /\ procs' = Step(p)
-    /\ UNCHANGED <<round, inst, chans, wgs, mus, glob, selvec, fault>>
+    /\ UNCHANGED <<cells, round, inst, chans, wgs, mus, glob, selvec, fault>>
 
 \* package-level variables
 Load(p) ==
     /\ Ready(p) /\ Op(p) = "load"
     /\ procs' = SetL(Step(p), p, Ins(p)[2], glob[NS(p, Ins(p)[3])])
-    /\ UNCHANGED <<round, inst, chans, wgs, mus, glob, out, selvec, fault>>
+    /\ UNCHANGED <<cells, round, inst, chans, wgs, mus, glob, out, selvec, fault>>
 
 Store(p) ==
     /\ Ready(p) /\ Op(p) = "store"
     /\ glob' = [glob EXCEPT ![NS(p, Ins(p)[2])] = Eval(Ins(p)[3], Loc(p))]
     /\ procs' = Step(p)
-    /\ UNCHANGED <<round, inst, chans, wgs, mus, out, selvec, fault>>
+    /\ UNCHANGED <<cells, round, inst, chans, wgs, mus, out, selvec, fault>>
+
+\* heap objects reached through a reference held in a local: x = *p, m[0], s[0]
+PLoad(p) ==
+    /\ Ready(p) /\ Op(p) = "pload"
+    /\ LET r == Loc(p)[Ins(p)[3]] IN
+         procs' = Touch(SetL(Step(p), p, Ins(p)[2], cells[r - CellBase]), p, r)
+    /\ UNCHANGED <<cells, round, inst, chans, wgs, mus, glob, out, selvec, fault>>
+
+PStore(p) ==
+    /\ Ready(p) /\ Op(p) = "pstore"
+    /\ LET r == Loc(p)[Ins(p)[2]] IN
+         /\ cells' = [cells EXCEPT ![r - CellBase] = Eval(Ins(p)[3], Loc(p))]
+         /\ procs' = Touch(Step(p), p, r)
+    /\ UNCHANGED <<round, inst, chans, wgs, mus, glob, out, selvec, fault>>
 
 \* ---------------------------------------------------------------- sync.WaitGroup
 WgAdd(p) ==
@@ -161,19 +184,19 @@ WgAdd(p) ==
          IF wgs[k] + d < 0
          THEN fault' = "negative WaitGroup counter" /\ UNCHANGED <<wgs, procs>>
          ELSE wgs' = [wgs EXCEPT ![k] = @ + d] /\ procs' = Step(p) /\ UNCHANGED fault
-    /\ UNCHANGED <<round, inst, chans, mus, glob, out, selvec>>
+    /\ UNCHANGED <<cells, round, inst, chans, mus, glob, out, selvec>>
 
 WgWait(p) ==
     /\ Ready(p) /\ Op(p) = "wgwait" /\ wgs[NS(p, Ins(p)[2])] = 0
     /\ procs' = Step(p)
-    /\ UNCHANGED <<round, inst, chans, wgs, mus, glob, out, selvec, fault>>
+    /\ UNCHANGED <<cells, round, inst, chans, wgs, mus, glob, out, selvec, fault>>
 
 \* -------------------------------------------------------------------- sync.Mutex
 Lock(p) ==
     /\ Ready(p) /\ Op(p) = "lock" /\ mus[NS(p, Ins(p)[2])] = 0
     /\ mus' = [mus EXCEPT ![NS(p, Ins(p)[2])] = p]
     /\ procs' = [Step(p) EXCEPT ![p].held = @ \cup {NS(p, Ins(p)[2])}]
-    /\ UNCHANGED <<round, inst, chans, wgs, glob, out, selvec, fault>>
+    /\ UNCHANGED <<cells, round, inst, chans, wgs, glob, out, selvec, fault>>
 
 Unlock(p) ==
     /\ Ready(p) /\ Op(p) = "unlock"
@@ -182,7 +205,7 @@ Unlock(p) ==
        ELSE /\ mus' = [mus EXCEPT ![NS(p, Ins(p)[2])] = 0]
             /\ procs' = [Step(p) EXCEPT ![p].held = @ \ {NS(p, Ins(p)[2])}]
             /\ UNCHANGED fault
-    /\ UNCHANGED <<round, inst, chans, wgs, glob, out, selvec>>
+    /\ UNCHANGED <<cells, round, inst, chans, wgs, glob, out, selvec>>
 
 \* ---------------------------------------------------------------------- channels
 Ch(c) == chans[Cx(c)]
@@ -200,7 +223,7 @@ SelFill(p) ==
     /\ LET i == procs[p].sf + 1 IN
          /\ selvec' = [selvec EXCEPT ![SelKey(p)][i] = Loc(p)[Ins(p)[2][i][2]]]
          /\ procs' = [procs EXCEPT ![p].sf = i]
-    /\ UNCHANGED <<round, inst, chans, wgs, mus, glob, out, fault>>
+    /\ UNCHANGED <<cells, round, inst, chans, wgs, mus, glob, out, fault>>
 
 \* <<value, next pc>> ways in which p is ready to SEND on channel c right now
 SendOffers(p, c) ==
@@ -235,7 +258,7 @@ Rendezvous(c) ==
          /\ p # q
          /\ \E s \in SendOffers(p, c), r \in RecvTargets(q, c) :
               procs' = Touch(Touch([Deliver(procs, q, r, s[1], 1) EXCEPT ![p].pc = s[2], ![p].sf = 0], p, c), q, c)
-    /\ UNCHANGED <<round, inst, chans, wgs, mus, glob, out, selvec, fault>>
+    /\ UNCHANGED <<cells, round, inst, chans, wgs, mus, glob, out, selvec, fault>>
 
 \* what a send of v on c by p does by itself (buffer room, or closed channel)
 SendAlone(p, c, v, t) ==
@@ -258,13 +281,13 @@ RecvAlone(q, c, r) ==
 Send(p) ==
     /\ Ready(p) /\ Op(p) = "send"
     /\ SendAlone(p, Loc(p)[Ins(p)[2]], Eval(Ins(p)[3], Loc(p)), procs[p].pc + 1)
-    /\ UNCHANGED <<round, inst, wgs, mus, glob, out, selvec>>
+    /\ UNCHANGED <<cells, round, inst, wgs, mus, glob, out, selvec>>
 
 \* v := <-c   and   v, ok := <-c
 Recv(p) ==
     /\ Ready(p) /\ Op(p) \in {"recv", "recvok"}
     /\ \E r \in RecvTargets(p, Loc(p)[Ins(p)[2]]) : RecvAlone(p, Loc(p)[Ins(p)[2]], r)
-    /\ UNCHANGED <<round, inst, wgs, mus, glob, out, selvec, fault>>
+    /\ UNCHANGED <<cells, round, inst, wgs, mus, glob, out, selvec, fault>>
 
 \* one iteration of `for v := range c`: a value, or the exit when c is closed and drained
 RangeNext(p) ==
@@ -273,7 +296,7 @@ RangeNext(p) ==
          IF Len(Ch(c).buf) = 0 /\ Ch(c).closed
          THEN procs' = Touch(Goto(p, Ins(p)[4]), p, c) /\ UNCHANGED chans
          ELSE \E r \in RecvTargets(p, c) : RecvAlone(p, c, r)
-    /\ UNCHANGED <<round, inst, wgs, mus, glob, out, selvec, fault>>
+    /\ UNCHANGED <<cells, round, inst, wgs, mus, glob, out, selvec, fault>>
 
 Close(p) ==
     /\ Ready(p) /\ Op(p) = "close"
@@ -281,7 +304,7 @@ Close(p) ==
          IF Ch(c).closed
          THEN fault' = "close of closed channel" /\ UNCHANGED <<chans, procs>>
          ELSE chans' = SetCh(c, [Ch(c) EXCEPT !.closed = TRUE]) /\ procs' = Touch(Step(p), p, c) /\ UNCHANGED fault
-    /\ UNCHANGED <<round, inst, wgs, mus, glob, out, selvec>>
+    /\ UNCHANGED <<cells, round, inst, wgs, mus, glob, out, selvec>>
 
 \* select: the cases that can proceed without a partner
 AloneReady(p, i) ==
@@ -305,13 +328,13 @@ Select(p) ==
           /\ \A i \in 1..NCases(p) : ~AloneReady(p, i)
           /\ procs' = [procs EXCEPT ![p].pc = Ins(p)[3], ![p].sf = 0]
           /\ UNCHANGED <<chans, fault>>
-    /\ UNCHANGED <<round, inst, wgs, mus, glob, out, selvec>>
+    /\ UNCHANGED <<cells, round, inst, wgs, mus, glob, out, selvec>>
 
 Finished == (Terminal \/ Stopped) /\ UNCHANGED vars
 
 Comm ==
     \/ \E p \in {x \in PIDs : Running(x)} :
-          \/ Println(p) \/ Load(p) \/ Store(p)
+          \/ Println(p) \/ Load(p) \/ Store(p) \/ PLoad(p) \/ PStore(p)
           \/ WgAdd(p) \/ WgWait(p) \/ Lock(p) \/ Unlock(p)
           \/ SelFill(p) \/ Send(p) \/ Recv(p) \/ RangeNext(p) \/ Close(p) \/ Select(p)
     \/ \E c \in {ChanBase + i : i \in 1..Len(chans)} : Rendezvous(c)
@@ -324,7 +347,8 @@ Spec == Init /\ [][Next]_vars
 \* ------------------------------------------------------------------- properties
 \* Deadlock freedom is TLC's own check (Finished makes terminal states stutter).
 
-\* a process operates only on the channels it was given or made
+\* a process operates only on the channels and heap objects it was given or made:
+\* every activation sees only its own arguments (evaluated BY the go statement)
 Isolation == \A p \in PIDs : procs[p].touched \subseteq procs[p].given
 
 \* no run-time panic: send on / close of a closed channel, WaitGroup and Mutex misuse
@@ -333,8 +357,11 @@ NoFault == fault = ""
 \* two processes never stand before conflicting accesses to one package-level
 \* variable (the definition of a data race in interleaving semantics); with a
 \* Mutex around every access this is mutual exclusion of the critical sections
-GlobAccess(p) == IF Running(p) /\ Op(p) = "load" THEN {<<NS(p, Ins(p)[3]), "r">>}
-                 ELSE IF Running(p) /\ Op(p) = "store" THEN {<<NS(p, Ins(p)[2]), "w">>}
+GlobAccess(p) == IF ~Running(p) THEN {}
+                 ELSE IF Op(p) = "load" THEN {<<NS(p, Ins(p)[3]), "r">>}
+                 ELSE IF Op(p) = "store" THEN {<<NS(p, Ins(p)[2]), "w">>}
+                 ELSE IF Op(p) = "pload" THEN {<<<<Loc(p)[Ins(p)[3]], "cell">>, "r">>}
+                 ELSE IF Op(p) = "pstore" THEN {<<<<Loc(p)[Ins(p)[2]], "cell">>, "w">>}
                  ELSE {}
 DataRaceFree ==
     LET A == {p \in PIDs : GlobAccess(p) # {}} IN
@@ -356,13 +383,13 @@ InitSim ==
     /\ inst = MkT(PickSeq[1]) /\ round = 1
     /\ procs = <<NewProc(inst.fn, inst.args, 0)>>
     /\ chans = <<>> /\ wgs = Wgs0 /\ mus = Mus0 /\ glob = Glob0
-    /\ out = <<>> /\ selvec = Selvec0 /\ fault = ""
+    /\ out = <<>> /\ selvec = Selvec0 /\ fault = "" /\ cells = <<>>
 NextInstance ==
     /\ Terminal /\ round < Len(PickSeq)
     /\ round' = round + 1 /\ inst' = MkT(PickSeq[round + 1])
     /\ procs' = <<NewProc(inst'.fn, inst'.args, 0)>>
     /\ chans' = <<>> /\ wgs' = Wgs0 /\ mus' = Mus0 /\ glob' = Glob0
-    /\ out' = <<>> /\ selvec' = Selvec0 /\ fault' = ""
+    /\ out' = <<>> /\ selvec' = Selvec0 /\ fault' = "" /\ cells' = <<>>
 SpecSim == InitSim /\ [][Step1 \/ NextInstance]_vars
 DeadlockFree == (~Terminal /\ ~Stopped) => ENABLED Step1
 
